@@ -353,6 +353,7 @@ struct Explorer {
   int bound;
   long schedules, cap;
   bool capped;
+  bool deadline_capped = false;
   size_t max_choice_points;
   std::set<std::string> outcomes;
   std::set<std::string> violations;
@@ -387,6 +388,7 @@ struct Explorer {
 
   void explore(const std::vector<int>& pfx) {
     if (cap && schedules >= cap) { capped = true; return; }
+    if ((schedules & 63) == 0 && R.past_deadline()) { capped = true; deadline_capped = true; return; }
     Exec e = fork_run(programs, pfx);
     check(e, pfx);
     // replay divergence check: the executed trace must start with the prefix
@@ -410,6 +412,7 @@ static std::vector<int> parse_prog(const std::string& s) { std::vector<int> v; s
 
 int main(int argc, char** argv) {
   vf::Args a; a.parse(argc, argv);
+  a.deadline_check_every_cell = true;
   vf::Report R("C14", vf_unit_name(), a);
   const bool thorough = a.thorough();
   const int n = vf_nops;
@@ -453,7 +456,7 @@ int main(int argc, char** argv) {
     for (int b = 0; b <= max_bound_cfg; ++b) {
       ex.bound = b; ex.schedules = 0; ex.capped = false;
       ex.explore(std::vector<int>());
-      if (ex.capped) { R.exhaustive = false; R.note("cap of " + std::to_string(cap) + " schedules hit at bound " + std::to_string(b) + " for " + key); break; }
+      if (ex.capped) { R.exhaustive = false; R.note((ex.deadline_capped ? std::string("deadline reached") : "cap of " + std::to_string(cap) + " schedules hit") + " at bound " + std::to_string(b) + " for " + key); break; }
       completed = b;
       if (ex.schedules == prev) { exhausted_cfg = true; break; }  // a larger bound adds no schedule: the space is exhausted
       prev = ex.schedules;
